@@ -30,7 +30,7 @@ def gen_cases(tier, seed):
         c["pseed"] = int(rng.integers(0, 2 ** 31))
         c["nprog"] = 30
         cases.append(c)
-    for i in range(8 if tier == "quick" else 60):
+    for i in range(16 if tier == "quick" else 100):
         c = D.random_dataset(rng, "MI/%d/%d" % (seed, i), max_rows=60)
         c["pseed"] = int(rng.integers(0, 2 ** 31))
         c["nprog"] = 12
@@ -99,6 +99,15 @@ def gen_program(rng, nrg, colnames, index_cols, scheme, nrows, filecols=None, mu
                 term["index_is_partition_column"] = True
         elif im == 3 and len(filecols) >= 2 and multi:
             term["index"] = [filecols[0], filecols[-1]]
+        if multi and len(filecols) >= 2 and rng.random() < 0.5:
+            # a several-level index whose levels the caller also lists in columns=, in another order than the levels have
+            a_, b_ = [filecols[int(i)] for i in rng.permutation(len(filecols))[:2]]
+            term["index"] = [a_, b_]
+            others = [c for c in colnames if c not in (a_, b_)]
+            keep = [others[int(i)] for i in rng.permutation(len(others))[:int(rng.integers(0, len(others) + 1))]]
+            cols_ = keep[:len(keep) // 2] + [b_] + keep[len(keep) // 2:] + [a_]
+            term["columns"] = cols_ if rng.random() < 0.7 else [b_, a_] + keep
+            term["levels_listed_in_another_order"] = True
     if tk == "head":
         term["n"] = int([0, 1, 2, nrows, nrows + 1, max(0, nrows // 2), 7][int(rng.integers(0, 7))])
     return {"chain": chain, "term": term}
@@ -345,6 +354,8 @@ def run_case(case):
                 f["partition_on"] = opts.get("partition_on") or []
             res["failures"] += fails
             counters["programs_compared"] = counters.get("programs_compared", 0) + 1
+            if term.get("levels_listed_in_another_order"):
+                counters["levels_of_a_chosen_index_listed_in_columns_in_another_order"] = counters.get("levels_of_a_chosen_index_listed_in_columns_in_another_order", 0) + 1
             if term.get("index_is_partition_column"):
                 counters["programs_with_a_partition_column_as_index"] = counters.get("programs_with_a_partition_column_as_index", 0) + 1
             counters["t:" + term["t"]] = counters.get("t:" + term["t"], 0) + 1
@@ -424,4 +435,4 @@ def coverage_extra(agg):
 
 
 def required(tier):
-    return {"programs_compared": 2000, "x:slice": 100, "x:pickle": 100, "x:deepcopy": 50, "x:filelike": 10, "t:head": 100, "t:iter": 100, "reads_with_a_reused_selection_object": 500, "programs_with_a_partition_column_as_index": 30, "caller_moved_shared_file_between_reads": 8, "selections_given_as_tuples": 200}
+    return {"programs_compared": 2000, "x:slice": 100, "x:pickle": 100, "x:deepcopy": 50, "x:filelike": 10, "t:head": 100, "t:iter": 100, "reads_with_a_reused_selection_object": 500, "programs_with_a_partition_column_as_index": 30, "caller_moved_shared_file_between_reads": 8, "selections_given_as_tuples": 200, "levels_of_a_chosen_index_listed_in_columns_in_another_order": 10}
